@@ -561,5 +561,5 @@ def generate(ctx):
     r = anchors.build(REPO, "C17", ["DPL.Model.LogReg"], anchors.c17_specs(), opens="DPL.LogReg", postlude=anchors.C17_POST)
     ctx.count("formula_anchors", r["obligations"])
     if r["errors"]:
-        r["error"] = "; ".join(r["errors"])
+        r["unavailable"] = r["errors"]      # anchors that could not be located / translated (not failed obligations)
     return r
